@@ -378,3 +378,164 @@ class Grammar:
                         return None      # a real character class: not a finite literal set
                     todo.append((nx, w + chr(l)))
         return sorted(words)
+
+
+# --------------------------------------------------------------------------- backtracking order (E4b)
+class BTMatcher:
+    """Reference semantics of Python's backtracking regex engine over the parsed pattern: match(text) is the end of the FIRST successful
+    path in priority order (greedy repeats try more iterations first, lazy ones fewer; alternatives left to right).  Used to evaluate a
+    terminal exhaustively over short strings of character-class representatives -- the pattern is data, the evaluator is ours."""
+
+    def __init__(self, pattern: str, flags: int = 0) -> None:
+        self.parsed = sre_parse.parse(pattern, flags)
+        self.flags = self.parsed.state.flags | flags
+        self.pattern = pattern
+
+    def boundaries(self) -> set[int]:
+        out: set[int] = {0, MAXCP + 1}
+
+        def walk(items: object) -> None:
+            for op, av in items:  # type: ignore[attr-defined]
+                name = str(op)
+                if name in ('LITERAL', 'NOT_LITERAL'):
+                    out.update((av, av + 1))
+                elif name == 'ANY':
+                    out.update((10, 11))
+                elif name == 'IN':
+                    for iop, iav in av:
+                        iname = str(iop)
+                        if iname == 'LITERAL':
+                            out.update((iav, iav + 1))
+                        elif iname == 'RANGE':
+                            out.update((iav[0], iav[1] + 1))
+                        elif iname == 'CATEGORY':
+                            for a, b in _category(iav):
+                                out.update((a, b + 1))
+                elif name == 'BRANCH':
+                    for alt in av[1]:
+                        walk(alt)
+                elif name == 'SUBPATTERN':
+                    walk(av[3])
+                elif name in ('MAX_REPEAT', 'MIN_REPEAT', 'POSSESSIVE_REPEAT'):
+                    walk(av[2])
+                elif name in ('ASSERT', 'ASSERT_NOT'):
+                    walk(av[1])
+                elif name == 'ATOMIC_GROUP':
+                    walk(av)
+        walk(self.parsed)
+        return out
+
+    def char_tests(self) -> list[tuple[str, object, int]]:
+        """every single-character test of the pattern, as (op, argument, flags)"""
+        out: list[tuple[str, object, int]] = []
+
+        def walk(items: object, flags: int) -> None:
+            for op, av in items:  # type: ignore[attr-defined]
+                name = str(op)
+                if name in ('LITERAL', 'NOT_LITERAL', 'ANY', 'IN'):
+                    out.append((name, av, flags))
+                elif name == 'BRANCH':
+                    for alt in av[1]:
+                        walk(alt, flags)
+                elif name == 'SUBPATTERN':
+                    walk(av[3], (flags | av[1]) & ~av[2])
+                elif name in ('MAX_REPEAT', 'MIN_REPEAT', 'POSSESSIVE_REPEAT'):
+                    walk(av[2], flags)
+                elif name in ('ASSERT', 'ASSERT_NOT'):
+                    walk(av[1], flags)
+                elif name == 'ATOMIC_GROUP':
+                    walk(av, flags)
+        walk(self.parsed, self.flags)
+        return out
+
+    def signature(self, ch: str) -> tuple:
+        return tuple(self._char(op, av, ch, fl) for op, av, fl in self.char_tests()) + (ch == '\n',)
+
+    def _char(self, op: str, av: object, ch: str, flags: int) -> bool:
+        cp = ord(ch)
+        if op == 'LITERAL':
+            return cp == av
+        if op == 'NOT_LITERAL':
+            return cp != av
+        if op == 'ANY':
+            return bool(flags & re.DOTALL) or ch != '\n'
+        neg = False
+        hit = False
+        for iop, iav in av:  # type: ignore[attr-defined]
+            iname = str(iop)
+            if iname == 'NEGATE':
+                neg = True
+            elif iname == 'LITERAL':
+                hit = hit or cp == iav
+            elif iname == 'RANGE':
+                hit = hit or iav[0] <= cp <= iav[1]
+            elif iname == 'CATEGORY':
+                hit = hit or any(a <= cp <= b for a, b in _category(iav))
+            else:
+                raise Unsupported(f'set item {iname}')
+        return hit != neg
+
+    def _seq(self, items: list, i: int, text: str, pos: int, flags: int, k: object) -> object:
+        """generator of end positions, in priority order, of items[i:] matched at pos, continued by k(pos) (a generator function)"""
+        if i == len(items):
+            yield from k(pos)  # type: ignore[operator]
+            return
+        op, av = items[i]
+        name = str(op)
+        rest = lambda p: self._seq(items, i + 1, text, p, flags, k)      # noqa: E731
+        if name in ('LITERAL', 'NOT_LITERAL', 'ANY', 'IN'):
+            if pos < len(text) and self._char(name, av, text[pos], flags):
+                yield from rest(pos + 1)
+        elif name == 'BRANCH':
+            for alt in av[1]:
+                yield from self._seq(list(alt), 0, text, pos, flags, rest)
+        elif name == 'SUBPATTERN':
+            _, add_flags, del_flags, sub = av
+            yield from self._seq(list(sub), 0, text, pos, (flags | add_flags) & ~del_flags, rest)
+        elif name in ('MAX_REPEAT', 'MIN_REPEAT'):
+            lo, hi, sub = av
+            sub = list(sub)
+
+            def rep(count: int, p: int) -> object:
+                def again(q: int) -> object:
+                    if q == p and count >= lo:
+                        return                  # an empty iteration does not repeat (as in sre)
+                    yield from rep(count + 1, q)
+                more = (lambda: self._seq(sub, 0, text, p, flags, again)) if (hi == sre_c.MAXREPEAT or count < hi) else (lambda: iter(()))
+                if count < lo:
+                    yield from more()
+                elif name == 'MAX_REPEAT':
+                    yield from more()
+                    yield from rest(p)
+                else:
+                    yield from rest(p)
+                    yield from more()
+            yield from rep(0, pos)
+        elif name in ('ASSERT', 'ASSERT_NOT'):
+            direction, sub = av
+            sub = list(sub)
+            ok = False
+            if direction > 0:
+                ok = next(iter(self._seq(sub, 0, text, pos, flags, lambda q: iter((q,)))), None) is not None
+            else:
+                for start in range(pos, -1, -1):
+                    if any(q == pos for q in self._seq(sub, 0, text, start, flags, lambda q: iter((q,)))):
+                        ok = True
+                        break
+            if ok == (name == 'ASSERT'):
+                yield from rest(pos)
+        elif name == 'AT':
+            at = str(av)
+            ok = {'AT_BEGINNING': pos == 0 or (bool(flags & re.M) and text[pos - 1] == '\n'), 'AT_BEGINNING_STRING': pos == 0,
+                  'AT_END': pos == len(text) or (pos == len(text) - 1 and text[pos] == '\n') or (bool(flags & re.M) and text[pos] == '\n'),
+                  'AT_END_STRING': pos == len(text)}.get(at)
+            if ok is None:
+                raise Unsupported(f'anchor {at}')
+            if ok:
+                yield from rest(pos)
+        else:
+            raise Unsupported(f'regex construct {name}')
+
+    def match_end(self, text: str) -> Optional[int]:
+        """end of re.match(pattern, text): first success in priority order, or None"""
+        return next(iter(self._seq(list(self.parsed), 0, text, 0, self.flags, lambda q: iter((q,)))), None)  # type: ignore[call-overload]
